@@ -65,6 +65,7 @@ type vSim struct {
 	inflIDs   map[*inflightRequest]string
 	gidNames  map[int64]string
 
+	inBubble     bool                // running inside a synctest bubble (virtual clock)
 	probeScripts map[string][]string // host -> outcomes, last one repeats
 	probeCount   map[string]int
 	probeLog     []map[string]any
@@ -840,7 +841,11 @@ func (s *vSim) cleanup() {
 		c()
 	}
 	s.mu.Unlock()
-	synctest.Wait()
+	if s.inBubble {
+		synctest.Wait()
+	} else {
+		time.Sleep(100 * time.Millisecond) // real scheduler (harness/c12fs_test.go): give the withdrawn exchanges time to unwind
+	}
 	s.releaseAll()
 	s.mu.Lock()
 	ts := append([]*Target{}, s.targets...)
@@ -861,6 +866,7 @@ func vRunScenario(t *testing.T, sc map[string]any) map[string]any {
 	out := map[string]any{}
 	synctest.Run(func() {
 		s := newSim(t, dir)
+		s.inBubble = true
 		restore := s.install()
 		defer restore()
 		s.router = NewRouter(s.statePath)
